@@ -29,7 +29,7 @@ RULE = (
     "node, or a dispatch through a base-class method; distinct = distinct (tree fingerprint, rule set)"
 )
 ASSUMPTIONS = ["CPython's __mro__ is the reference for 'nearest class in its MRO'"]
-MUST_SEE = ["dispatch_after_class_redefinition", "rules_using_the_children_helper", "strictness_set_per_instance", "tuple_wider_than_256", "rules_attached_after_class_creation", "raised_BoomAttr", "raised_BoomKey", 
+MUST_SEE = ["transform_over_subclass_defined_after_base_was_used", "dispatch_after_class_redefinition", "rules_using_the_children_helper", "strictness_set_per_instance", "tuple_wider_than_256", "rules_attached_after_class_creation", "raised_BoomAttr", "raised_BoomKey", 
     "remove_first", "remove_middle", "remove_last", "remove_all", "remove_single_optional", "unchanged_subtree_under_changed_root",
     "strict_base_only_generic", "raise_below_depth2", "dispatch_second_base", "unchanged_returns_self", "validate_mismatch_raised",
     "validate_ok", "frames_checked", "derived_visitor_after_base_used",
@@ -530,3 +530,30 @@ def run_shard(ctx):  # noqa: F811 - the main loop, then a leg that needs a histo
         ret = V().visit(node)
         if ret != base or log != [base]:
             ctx.violation("dispatch", "visit() of an instance of a class defined again under its name (other bases) used another class's rule", {"bases_now": base, "called": list(log)})
+    # a subclass that adds a child field, defined after its base class has been in use (instances created, traversed,
+    # transformed): an ordinary transform visits the new field like any other
+    from pyoak.visitor import ASTTransformVisitor
+
+    Un, Leaf, Lst = U.cls[f"{P}Un"], U.cls[f"{P}Leaf"], U.cls[f"{P}List"]
+    warm = Lst(items=(Un(child=Leaf(v=1)), Leaf(v=2)))
+    list(warm.dfs()), warm.as_dict(), ASTTransformVisitor().transform(warm)
+    src = f"@dataclass(frozen=True)\nclass {P}Late9({P}Un):\n    extra: {P}Expr | None = None\n    more: tuple[{P}Expr, ...] = ()\n"
+    exec(compile(src, "<c09 late>", "exec", dont_inherit=True), U.module.__dict__)
+    Late = U.module.__dict__[f"{P}Late9"]
+    tree = Lst(items=(Late(child=Leaf(v=10), extra=Leaf(v=11), more=(Leaf(v=12), Un(child=Leaf(v=13)))), Leaf(v=14)))
+
+    def bump(self_, node):
+        return dataclasses.replace(node, v=node.v + 100)
+
+    TV = type("TVLate", (ASTTransformVisitor,), {f"visit_{P}Leaf": bump})
+    ctx.evaluations += 1
+    ctx.count("transform_over_subclass_defined_after_base_was_used")
+    try:
+        out = TV().transform(tree)
+        got = sorted(x.node.v for x in out.dfs() if isinstance(x.node, Leaf))
+    except Exception as e:  # noqa: BLE001
+        got = f"{type(e).__name__}: {e}"[:200]
+    if got != [110, 111, 112, 113, 114]:
+        ctx.violation("transform-late-subclass", "a transform over a tree holding an instance of a subclass (with child fields of its own) defined after the base class was used did not rewrite every leaf", {"leaf_values_after": got, "expected": [110, 111, 112, 113, 114]})
+    for t_ in (warm, tree):
+        t_.detach()
